@@ -248,6 +248,18 @@ func (r *errResolver) callAlts(c *ssa.Call, idx int, seen map[ssa.Value]bool) []
 		}
 		return dedupAlts(acc)
 	}
+	// a call through a function-typed parameter of the enclosing function is
+	// kept symbolic and resolved at each call site of that function, where the
+	// argument is usually a named function (generic "get and validate" helpers)
+	if !c.Call.IsInvoke() && c.Call.StaticCallee() == nil {
+		if p, ok := c.Call.Value.(*ssa.Parameter); ok {
+			for i, q := range p.Parent().Params {
+				if q == p {
+					return []ErrAlt{{Cls: []string{fmt.Sprintf("callparam:%d:%d", i, idx)}, Origin: c}}
+				}
+			}
+		}
+	}
 	var callees []*ssa.Function
 	if f := c.Call.StaticCallee(); f != nil {
 		callees = []*ssa.Function{f}
@@ -275,14 +287,23 @@ func (r *errResolver) callAlts(c *ssa.Call, idx int, seen map[ssa.Value]bool) []
 			// substitute symbolic parameters
 			alts := []ErrAlt{{Origin: a.Origin}}
 			for _, cl := range a.Cls {
-				if strings.HasPrefix(cl, "param:") {
+				if strings.HasPrefix(cl, "param:") || strings.HasPrefix(cl, "callparam:") {
 					var pi int
-					fmt.Sscanf(cl, "param:%d", &pi)
 					var sub []ErrAlt
-					if pi < len(full) {
-						sub = r.valueAlts(full[pi], seen)
-					} else {
+					if strings.HasPrefix(cl, "callparam:") {
+						var ri int
+						fmt.Sscanf(cl, "callparam:%d:%d", &pi, &ri)
 						sub = []ErrAlt{{Cls: []string{"?"}, Origin: c}}
+						if pi < len(full) {
+							sub = r.funcValueAlts(full[pi], ri, c)
+						}
+					} else {
+						fmt.Sscanf(cl, "param:%d", &pi)
+						if pi < len(full) {
+							sub = r.valueAlts(full[pi], seen)
+						} else {
+							sub = []ErrAlt{{Cls: []string{"?"}, Origin: c}}
+						}
 					}
 					var next []ErrAlt
 					for _, x := range alts {
@@ -315,6 +336,46 @@ func (r *errResolver) callAlts(c *ssa.Call, idx int, seen map[ssa.Value]bool) []
 		}
 	}
 	return dedupAlts(out)
+}
+
+// funcValueAlts: the alternatives of result ri of the function value v handed
+// to a callee that calls it: a named function or a closure gives that
+// function's own alternatives (with its parameters unknown); a parameter of the
+// caller stays symbolic one level up; anything else is unresolved.
+func (r *errResolver) funcValueAlts(v ssa.Value, ri int, at *ssa.Call) []ErrAlt {
+	switch x := v.(type) {
+	case *ssa.Function:
+		if !r.w.InRepo(x) || x.Blocks == nil {
+			return []ErrAlt{{Cls: []string{"external:" + x.String()}, Origin: at}}
+		}
+		var out []ErrAlt
+		for _, a := range r.RetAlts(x, ri) {
+			if a.Nil {
+				out = append(out, a)
+				continue
+			}
+			n := ErrAlt{Origin: a.Origin}
+			for _, cl := range a.Cls {
+				if strings.HasPrefix(cl, "param:") || strings.HasPrefix(cl, "callparam:") {
+					cl = "?"
+				}
+				n.Cls = mergeSorted(n.Cls, []string{cl})
+			}
+			out = append(out, n)
+		}
+		return dedupAlts(out)
+	case *ssa.MakeClosure:
+		return r.funcValueAlts(x.Fn, ri, at)
+	case *ssa.ChangeType:
+		return r.funcValueAlts(x.X, ri, at)
+	case *ssa.Parameter:
+		for i, q := range x.Parent().Params {
+			if q == x {
+				return []ErrAlt{{Cls: []string{fmt.Sprintf("callparam:%d:%d", i, ri)}, Origin: at}}
+			}
+		}
+	}
+	return []ErrAlt{{Cls: []string{"?"}, Origin: at}}
 }
 
 func mergeSorted(a, b []string) []string {
